@@ -13,6 +13,7 @@ import (
 
 func init() {
 	explain("C02", "Static necessary conditions of in-order, exactly-once per-stream commits, decided exhaustively over the source: a stream is attached by exactly one guarded site whose caller removed it from the charged list under the list lock; every access to the stream queue state is under stream.mu (interprocedural lock flow); Batch.events is appended in one place only, under the batcher's fill lock, and committed by an ascending index loop; every ActionResult case calls the finalizer exactly once (Discard/Collapse/Hold) or never (Pass/Break); a held event is always handed to Propagate; single commit sequencer. "+
+		"Also: the compare-and-advance of a stream's committed sequence is one critical section; a busy (holding) action is not match-filtered, so no event of the stream overtakes the held one; batches are committed in the order they were sealed. "+
 		"NOT decided: order/uniqueness of a concrete commit history, nor 'none unaccounted at quiescence'.",
 		"go/types, go/ssa and x/tools call resolution are correct", "lock identity is by access path", "streamer.dump is a debug reader and is exempt from the lock table")
 	reg("C02", "C02.R1", "E1+E2+E3", "single guarded attach site; its caller pops the stream from the charged list under the list lock", 1, ruleSingleOwner)
@@ -24,6 +25,7 @@ func init() {
 	reg("C02", "C02.R8", "E2", "Propagate clears the holding action's busy mark before the flushed event re-enters the action chain", 1, rulePropagateResetsBusy)
 	reg("C02", "C02.R9", "E2+E3", "stream.commit: compare-and-advance of commitSeq is one critical section (same rule as C01.R9)", 1, ruleStreamCommit)
 	reg("C02", "C02.R10", "E2", "events of a stream cannot overtake an event held by a busy action: a busy action is not match-filtered (same rule as C15.R4)", 1, ruleBusyNotFiltered)
+	reg("C02", "C02.R11", "E2+E3", "batches are committed in the order they were sealed: sequenced commit region (same rule as C01.R5)", 1, ruleSequencedRegion)
 	reg("C02", "C02.R7", "E2+E3", "stream.put appends at the tail under the lock and numbers events by +1", 1, ruleStreamPutFIFO)
 }
 
